@@ -277,6 +277,12 @@ func TestBatchHuge(t *testing.T) {
 			req{"cmpp", []int{0, 8}, rep("a", n)}, req{"cmpp", []int{15, 8}, rep("a", n)}, req{"cmpp", []int{8, 0}, rep("中", n/2)},
 			req{"cmpp", []int{15, 9}, rep("中", n/2)}, req{"cmpp", []int{0}, rep("中", n/2)})
 	}
+	// a single candidate that overflows 255 parts although UCS-2 would fit: characters that take 4 octets in
+	// GB18030 and 2 in UCS-2, escape-only GSM-7 texts
+	for _, n := range []int{8416, 8500, 9000, 17000} {
+		reqs = append(reqs, req{"cmpp", []int{15}, rep("\u00c1", n)}, req{"cmpp", []int{15, 15}, rep("\u0e01", n)}, req{"cmpp", []int{15, 4}, rep("\u00c1", n)},
+			req{"smpp", []int{99}, rep("[", 2*n)}, req{"smpp", []int{0}, rep("\u20ac", 2*n)}, req{"smpp", []int{1}, rep("a", 4*n+300)})
+	}
 	for i, r := range reqs {
 		if !env.Mine(i) {
 			continue
@@ -362,5 +368,110 @@ func TestBatch(t *testing.T) {
 		}
 		rec.Sample(c.Proto, map[string]any{"proto": c.Proto, "candidates": c.Candidates, "origin": c.Origin, "has_origin": c.HasOrigin, "text_bytes": len(c.Text) / 2, "usable": usable})
 		rec.ReportSeq(t, "batch", c, func() *vk.Violation { return check(c) })
+	})
+}
+
+// ReuseCase: one builder object serves two requests one after the other; between them only the setters
+// whose argument changed are called (the way a long-lived sender reuses its builder).
+type ReuseCase struct {
+	First  Case   `json:"first"`
+	Second Case   `json:"second"`
+	Touch  []bool `json:"touch"` // which setters are called again for the second request: content, candidates, origin
+}
+
+func checkReuse(rc ReuseCase) *vk.Violation {
+	pr := map[string]sms.Protocol{"cmpp": sms.CMPP, "smpp": sms.SMPP}[rc.First.Proto]
+	mk := func(c Case) []dc.ProtocolDataCoding {
+		var l []dc.ProtocolDataCoding
+		for _, n := range c.Candidates {
+			l = append(l, pdc(c.Proto, n))
+		}
+		return l
+	}
+	b := sms.NewBatchDataCodingEncoder().Protocol(pr).Content(string(vk.UnHex(rc.First.Text)), rc.First.Ref).DataCodings(mk(rc.First))
+	if rc.First.HasOrigin {
+		b = b.OriginDataCoding(pdc(rc.First.Proto, rc.First.Origin))
+	}
+	var v *vk.Violation
+	pn := vk.Guarded("reuse", rc.First.Proto+"/reuse/hang", func() any { return rc }, func() {
+		_, _, _ = b.Build(context.Background())
+		// second request: same protocol; call only the setters that have something new
+		eff := rc.Second
+		if rc.Touch[0] {
+			b.Content(string(vk.UnHex(rc.Second.Text)), rc.Second.Ref)
+		} else {
+			eff.Text, eff.Ref = rc.First.Text, rc.First.Ref
+		}
+		if rc.Touch[1] {
+			b.DataCodings(mk(rc.Second))
+		} else {
+			eff.Candidates = rc.First.Candidates
+		}
+		if rc.Touch[2] && rc.Second.HasOrigin {
+			b.OriginDataCoding(pdc(rc.Second.Proto, rc.Second.Origin))
+		} else {
+			eff.HasOrigin, eff.Origin = rc.First.HasOrigin, rc.First.Origin
+		}
+		parts, coding, err := b.Build(context.Background())
+		// a fresh builder configured with the effective request is the reference
+		eff.Shuffles = nil
+		fresh := build(eff, identity(len(eff.Candidates)))
+		if (err == nil) != (fresh.err == nil) || coding != fresh.coding || !sameParts(parts, fresh.parts) {
+			v = vk.Violf(rc.First.Proto+"/reused-builder-differs-from-fresh-builder", rc, "a builder that served another request before returns (coding %v, %d parts, err %v); a fresh builder with the same effective request returns (coding %v, %d parts, err %v): the result depends on the builder's history", coding, len(parts), err, fresh.coding, len(fresh.parts), fresh.err)
+		}
+	})
+	if pn != "" {
+		return vk.Violf(rc.First.Proto+"/reuse/panic", rc, "panic\n%s", pn)
+	}
+	return v
+}
+
+func identity(n int) []int {
+	out := make([]int, n)
+	for i := range out {
+		out[i] = i
+	}
+	return out
+}
+
+func init() {
+	reg["reuse"] = func(raw json.RawMessage) *vk.Violation {
+		var c ReuseCase
+		_ = json.Unmarshal(raw, &c)
+		return checkReuse(c)
+	}
+}
+
+func drawRequest(t *rapid.T, proto, label string) Case {
+	c := Case{Proto: proto, Ref: rapid.Byte().Draw(t, label+"ref")}
+	valid, invalid := splitk.CMPPValid, splitk.CMPPInvalid[:7]
+	if proto == "smpp" {
+		valid, invalid = splitk.SMPPValid, splitk.SMPPInvalid[:7]
+	}
+	pool := append(append([]int{}, valid...), valid...)
+	pool = append(pool, invalid...)
+	n := rapid.IntRange(1, 4).Draw(t, label+"n")
+	c.Candidates = rapid.SliceOfN(rapid.SampledFrom(pool), n, n).Draw(t, label+"cands")
+	c.HasOrigin = rapid.Bool().Draw(t, label+"hasorigin")
+	if c.HasOrigin {
+		c.Origin = rapid.SampledFrom(pool).Draw(t, label+"origin")
+	}
+	txt := drawContent(t, proto)
+	if txt == "" {
+		txt = "hello"
+	}
+	c.Text = vk.Hex([]byte(txt))
+	return c
+}
+
+func TestBuilderReuse(t *testing.T) {
+	rapid.Check(t, func(t *rapid.T) {
+		proto := rapid.SampledFrom([]string{"cmpp", "smpp"}).Draw(t, "proto")
+		rc := ReuseCase{First: drawRequest(t, proto, "a"), Second: drawRequest(t, proto, "b"),
+			Touch: []bool{rapid.Bool().Draw(t, "t0"), rapid.Bool().Draw(t, "t1"), rapid.Bool().Draw(t, "t2")}}
+		rec.Eval()
+		rec.NonTrivial("reuse", rc.First.Text, rc.Second.Text, fmt.Sprint(rc.First.Candidates, rc.Second.Candidates, rc.First.Origin, rc.Second.Origin, rc.Touch))
+		rec.Class("builder_reused_for_a_second_request")
+		rec.Report(t, "reuse", checkReuse(rc))
 	})
 }
